@@ -406,6 +406,8 @@ pub fn ntru_gen(
     // let mut rng: StdRng = SeedableRng::from_seed(seed);
 
     loop {
+        #[cfg(falcon_rust_verif)]
+        crate::verif_hooks::probe("ntru_gen.attempt");
         let f = gen_poly(n, rng);
         let g = gen_poly(n, rng);
 
